@@ -40,7 +40,7 @@ MCRStep(r) == RNext(r) /\ Keep /\ Step([a |-> "Step", p |-> r])
 
 MCNext ==
   \/ MCAppBegin \/ MCAppStep \/ MCRolBegin \/ MCRolStep
-  \/ \E h \in (hw + 1)..Newest : MCSetHW(h)
+  \/ \E h \in 0..Newest : MCSetHW(h)          \* any step; a stale (lower) value is a no-op
   \/ \E b \in BOOLEAN : MCTogBegin(b)
   \/ MCTogStep
   \/ \E r \in Readers, s \in Starts : MCNewReader(r, s)
